@@ -384,13 +384,28 @@ def build_dns(ans: str, inj: dict, *, err=False, qtype=None, rcode=3):
 
 # ---- running one hook ---------------------------------------------------------------------------------------------
 def run_hook(d, sink: Sink, tap: StyleTap, call, site: str):
+    import signal
+
+    class _NoReturn(BaseException):
+        pass
+
+    def fire(signum, frame):
+        raise _NoReturn()
+
     tap.own.clear()
     out = []
     raised = None
+    old = signal.signal(signal.SIGALRM, fire)
+    signal.setitimer(signal.ITIMER_REAL, 10.0)  # a hook that does not come back (e.g. a view that blocks) is an observation
     try:
         call()
     except Exception as e:  # observation, not a harness failure
         raised = type(e).__name__
+    except _NoReturn:
+        raised = "NoReturn"
+    finally:
+        signal.setitimer(signal.ITIMER_REAL, 0)
+        signal.signal(signal.SIGALRM, old)
     own_removed = False
     for fn, text in sink.take():
         text, removed = strip_own(text, tap.own)
